@@ -945,6 +945,8 @@ class History:
             self.apply(st)
         elif op == 'advance':
             self.advance(st)
+        elif op == 'foreign':
+            self.foreign(st)
         else:
             raise ValueError(op)
         self.invariant()
@@ -966,7 +968,8 @@ class History:
                 sp = M.expr_stmt_tuple(c.path)
                 self.held.append({'cursor': c, 'version': len(self.versions) - 1, 'kind': 'expr',
                                   'marks': M.marks_of([M.get_stmt(f.ast, sp)], self.prog.universe),
-                                  'origin_expr': c.resolve(), 'origin': ('stmt', sp), 'advanced': 0})
+                                  'origin_expr': c.resolve(), 'origin': ('stmt', sp), 'advanced': 0,
+                                  'pos': ('stmt', sp), 'extra': set()})
                 return
         p, s = stmts[st['k'] % len(stmts)]
         if kind == 'region':
@@ -980,7 +983,43 @@ class History:
             origin = ('stmt', p)
             marks = M.marks_of([s], self.prog.universe)
         self.held.append({'cursor': c, 'version': len(self.versions) - 1, 'kind': 'stmt', 'marks': marks,
-                          'origin': origin, 'advanced': 0})
+                          'origin': origin, 'advanced': 0, 'pos': origin, 'extra': set()})
+
+    def foreign(self, st):
+        """A cursor of a program this one does not derive from (a sibling branch, a descendant, a helper) names
+        nothing here: forwarding it and aiming with it are bad references."""
+        res = self.res
+        base = self.versions[st['v'] % len(self.versions)]
+        cfg = Cfg(st['cfg'], self.prog.mod)
+        if st['v'] % 3 == 2:
+            other = self.prog.mod.h1
+        else:
+            try:
+                other = cfg.apply(base, 0)
+            except Exception:
+                return
+            if any(other.ast is g.ast for g in self.versions):
+                return
+        stmts = list(M.walk(other.ast))
+        p, _ = stmts[st['k'] % len(stmts)]
+        c = StmtCursor(other.ast, M.path_of_tuple(p))
+        res.case()
+        res.cls(self.cp + ':foreign-cursor')
+        try:
+            r = self.cur.forward(c)
+            res.fail('forward/resolves-a-cursor-of-an-unrelated-program', self.snapshot(), expected='TransformReferenceError',
+                     got=str(r)[:120])
+        except TransformReferenceError:
+            pass
+        try:
+            cfg.apply(self.cur, c)
+            res.fail(f'{cfg.s}: where-cursor/cursor-of-an-unrelated-program-accepted', self.snapshot(),
+                     expected='TransformReferenceError', got='rewrote')
+        except TransformReferenceError:
+            pass
+        except Exception as e:
+            res.fail(f'{cfg.s}: where-cursor/cursor-of-an-unrelated-program-raises:{type(e).__name__}', self.snapshot(),
+                     expected='TransformReferenceError', got=f'{type(e).__name__}: {str(e)[:200]}')
 
     def advance(self, st):
         """Replace a held cursor by its image in the current program (so later forwards start mid-chain)."""
@@ -997,6 +1036,7 @@ class History:
             h['advanced'] += 1
             if h['kind'] == 'stmt':
                 h['origin'] = norm_cursor(c)
+                h['pos'] = h['origin']
 
     def apply(self, st):
         res = self.res
@@ -1098,7 +1138,7 @@ class History:
                 m = M.marks_of([M.get_stmt(f.ast, t)], uni)
             except (IndexError, KeyError):
                 continue
-            if old['kind'] == 'stmt' and old['marks'] and not m <= old['marks']:
+            if old['kind'] == 'stmt' and old['marks'] and not m <= (old['marks'] | old['extra']):
                 self.res.fail(f'{cfg.s}: rebase/old-cursor-rewrote-an-unrelated-statement', self.snapshot(),
                               expected=f'rewrites within statements marked {sorted(old["marks"])}',
                               got=f'touched {list(t)} marked {sorted(m)}')
@@ -1115,27 +1155,36 @@ class History:
                 res.fail(f'{sname}: editlog/reporting-pass-reports-nothing', self.snapshot(), expected='an edit log', got=None)
             elif g.ast is not f.ast and not checked:
                 check_step_log(res, f, g, self.snapshot(), f'{sname}: ')
+        self.track(f, g, reporting)
         self.versions.append(g)
         self.reporting.append(reporting)
         if not reporting:
             self.n_opaque += 1
 
-    def model_chain(self, h):
-        """The reference model replayed over every step since the cursor was taken / advanced."""
-        pos = h['origin']
-        for g in self.versions[h['version'] + 1:]:
-            if g.edits is None:
-                return ('raise', 'opaque')
-            if g.edits.source is g.ast:
-                continue            # a pass that handed the same tree back
+    def track(self, f, g, reporting):
+        """Move every held cursor's reference position across the step f -> g.  A statement consumed *together with
+        others* by one edit (a multi-statement rewrite window) shares their image, so their watermarks become
+        legitimate company (EditLog._forward_region: "members one edit consumed together share its image")."""
+        log = None
+        if reporting and g.edits is not None and g.edits.source is not g.ast:
             log = M.Log(g.edits)
-            if pos[0] == 'stmt':
-                pos = M.model_forward(log, pos[1])
-            else:
-                pos = M.model_forward_region(log, pos[1], pos[2], pos[3])
+        for h in self.held:
+            pos = h['pos']
             if pos[0] == 'raise':
-                return pos
-        return pos
+                continue
+            if not reporting or g.edits is None:
+                h['pos'] = ('raise', 'opaque')
+                continue
+            if log is None:
+                continue
+            if pos[0] == 'stmt':
+                blk, lo, hi = pos[1][:-1], pos[1][-1], pos[1][-1] + 1
+            else:
+                blk, lo, hi = pos[1], pos[2], pos[3]
+            for (b, idx, rem, ins) in log.edits:
+                if b == blk and rem >= 2 and idx < hi and lo < idx + rem:
+                    h['extra'] |= M.marks_of(M.get_block(f.ast, b).stmts[idx:idx + rem], self.prog.universe)
+            h['pos'] = M.model_forward(log, pos[1]) if pos[0] == 'stmt' else M.model_forward_region(log, pos[1], pos[2], pos[3])
 
     # -- invariant ---------------------------------------------------------------
     def invariant(self):
@@ -1148,7 +1197,7 @@ class History:
             res.case()
             if opaque:
                 res.cls(self.cp + ':held-across-a-pass-that-reports-nothing')
-            want = self.model_chain(h) if h['kind'] == 'stmt' and not opaque else None
+            want = h['pos'] if h['kind'] == 'stmt' and not opaque else None
             n_rep = sum(1 for g in self.versions[v + 1:] if g.edits is not None and g.ast is not g.edits.source)
             try:
                 c = cur.forward(h['cursor'])
@@ -1194,7 +1243,7 @@ class History:
                 if not isinstance(T, list):
                     T = [T]
             mt = M.marks_of(T, uni)
-            if not mt <= h['marks']:
+            if not mt <= (h['marks'] | h['extra']):
                 res.fail('forward/cursor-resolves-to-an-unrelated-statement', self.snapshot(),
                          expected=f'statements descending from the one marked {sorted(h["marks"])}',
                          got=f'{str(c)[:60]} marked {sorted(mt)}')
@@ -1375,6 +1424,12 @@ def history_machine(res, seed, tier):
             # a pass that reports nothing ends every held cursor: at most two per history, and only with cursors held
             if self.H.n_opaque < 2 and self.H.held:
                 self.H.step({'op': 'apply', 'cfg': ['simplify', 'elim_iter', 'fuse', 'elim_round'][ui], 'where': None})
+
+        @rule(ci=st.integers(0, 10 ** 6), v=st.integers(0, 30), k=st.integers(0, 200))
+        def foreign_cursor(self, ci, v, k):
+            desc, kk = self.pick(ci)
+            if desc is not None and len(self.H.versions) >= 2:
+                self.H.step({'op': 'foreign', 'cfg': desc, 'v': v, 'k': k})
 
         @rule(i=st.integers(0, 7))
         def advance(self, i):
